@@ -40,15 +40,19 @@ func cmdFunc(args []string) {
 	verbose := fs.Bool("v", false, "print every obligation")
 	dump := fs.String("dump", "", "dump the VC of obligations whose name contains this string")
 	nomerge := fs.Bool("nomerge", false, "do not merge states at if-joins")
+	extra := fs.String("load", "", "extra package patterns to load with source (e.g. strconv)")
 	fs.Parse(args)
 	V := newVerifier(*repo, *stdlib)
 	V.noMerge = *nomerge
 	t0 := time.Now()
-	loadPat := "./..."
+	loadPat := []string{"./..."}
 	if *pkg == "stdlib" {
-		loadPat = "./typez"
+		loadPat = []string{"./typez"}
 	}
-	if err := V.load([]string{loadPat}); err != nil {
+	if *extra != "" {
+		loadPat = append(loadPat, strings.Split(*extra, ",")...)
+	}
+	if err := V.load(loadPat); err != nil {
 		fmt.Fprintln(os.Stderr, "load:", err)
 		os.Exit(2)
 	}
@@ -99,6 +103,7 @@ func cmdFunc(args []string) {
 		}
 		t1 := time.Now()
 		V.discharge(res.Obls, SolveOpts{TimeoutS: *timeout, Workdir: wd, Workers: 16, KeepVCs: *keep})
+		groupVacuity(res.Obls)
 		np := 0
 		for _, ob := range res.Obls {
 			if ob.Status == "proved" {
@@ -172,5 +177,21 @@ func cmdOrds(args []string) {
 	sort.Slice(es, func(i, j int) bool { return es[i].line < es[j].line || es[i].line == es[j].line && es[i].s < es[j].s })
 	for _, e := range es {
 		fmt.Printf("%5d  %s\n", e.line, e.s)
+	}
+}
+
+// groupVacuity: a loop body must be reachable on at least one path; infeasible paths legitimately refute their own cover.
+func groupVacuity(obls []*Obligation) {
+	ok := map[string]bool{}
+	for _, ob := range obls {
+		if ob.Kind == "vacuity" && ob.Status == "proved" {
+			ok[ob.Name] = true
+		}
+	}
+	for _, ob := range obls {
+		if ob.Kind == "vacuity" && ob.Status != "proved" && ok[ob.Name] {
+			ob.Status = "proved"
+			ob.Solver = "(another path reaches the body)"
+		}
 	}
 }
